@@ -224,6 +224,8 @@ func (fv *FV) applyContract(st *State, call *ast.CallExpr, fc *FuncContract, sel
 		}
 		if fv.isPathExpr(a) {
 			paths[fc.Params[i]] = fv.lvalue(st, a)
+		} else if u, ok := stripParens(a).(*ast.UnaryExpr); ok && u.Op == token.AND && fv.isPathExpr(stripParens(u.X)) {
+			paths[fc.Params[i]] = fv.lvalue(st, stripParens(u.X)) // &x: the callee may modify x
 		}
 	}
 	args := fv.evalArgs(st, call, sig)
